@@ -285,7 +285,9 @@ func init() {
 		Units: func(tier string, seed uint64) int { u, _ := c02Sizes(tier); return u + c02ExhUnits },
 		Run:   c02Run,
 		Replay: map[string]func(json.RawMessage) string{
-			"validate-reused": func(json.RawMessage) string { return "needs the history of the schema object: not replayable from the case alone" },
+			"validate-reused": func(json.RawMessage) string {
+				return "needs the history of the schema object: not replayable from the case alone"
+			},
 			"validate": func(raw json.RawMessage) string {
 				var cs c02Case
 				json.Unmarshal(raw, &cs)
